@@ -351,11 +351,34 @@ theorem C10_promote (fuel c : Nat) (h : Heap) (inv : Inv h) : Inv (promote R fue
             | error e => exact invs
             | ok u => exact ih p h1 invs
 
+/-- **C10 (the library's `append` as a whole, repair of D34).** Promoting the element first and then listing the child preserves the
+    invariant, whichever of the two is refused. -/
+theorem C10_appendP (fuel p c : Nat) (h : Heap) (inv : Inv h) : Inv (appendP R fuel p c h).1 := by
+  unfold appendP
+  have ha := C10_append R p c h inv
+  cases hr : append R p c h with
+  | mk h2 r2 =>
+    rw [hr] at ha
+    cases r2 with
+    | error e => exact ha
+    | ok u =>
+      simp only []
+      by_cases hcond : (listsNew h h2 p c && pending h p) = true
+      · rw [if_pos hcond]
+        have hp := C10_promote R fuel p h inv
+        cases hq : promote R fuel p h with
+        | mk h1 r1 =>
+          rw [hq] at hp
+          cases r1 with
+          | error e => exact hp
+          | ok u1 => exact C10_append R p c h1 hp
+      · rw [if_neg hcond]; exact ha
+
 /-! ### every reachable state -/
 
 inductive HOp
   | append (p c : Nat) | insert (p c li : Nat) | remove (p c : Nat) | replace (p old new : Nat)
-  | setParent (p c : Nat) | unsetParent (c : Nat) | setTrav (p c : Nat) | promote (c : Nat)
+  | setParent (p c : Nat) | unsetParent (c : Nat) | setTrav (p c : Nat) | promote (c : Nat) | appendP (p c : Nat)
 
 /-- one API call on the graph; the structure knowledge (`Rules`) may differ from call to call -/
 def HOp.run (R : Rules) : HOp → Heap → Heap
@@ -367,6 +390,7 @@ def HOp.run (R : Rules) : HOp → Heap → Heap
   | .unsetParent c, h => (Heap.unsetParent c h).1
   | .setTrav p c, h => (Heap.setTrav R p c h).1
   | .promote c, h => (Heap.promote R h.length c h).1
+  | .appendP p c, h => (Heap.appendP R h.length p c h).1
 
 def runAll (ops : List (Rules × HOp)) (h : Heap) : Heap := ops.foldl (fun h o => o.2.run o.1 h) h
 
@@ -380,6 +404,7 @@ theorem C10_step (R : Rules) (o : HOp) (h : Heap) (inv : Inv h) : Inv (o.run R h
   | unsetParent c => exact C10_unsetParent c h inv
   | setTrav p c => exact C10_setTrav R p c h inv
   | promote c => exact C10_promote R h.length c h inv
+  | appendP p c => exact C10_appendP R h.length p c h inv
 
 /-- **C10.** After any sequence of operations, successful or rejected, starting from elements that list
     nothing (freshly constructed), the invariant holds. -/
